@@ -753,7 +753,23 @@ def probe_self_append(ctx, harness):
         g = got[kinds.index(k)] if kinds.index(k) < len(got) else f"<no output: crash/timeout rc={rc}> {err[-300:]}"
         if g != exp:
             failing.append((k, line, g, exp))
-    ctx.cov["self_append_probes"] = {"run": len(kinds), "failing": len(failing)}
+    # the model of the real code on these lines (Deep.selfLink, theorem self_append_creates_cycle): its prediction of
+    # the cyclic heap must be what the real code shows, as long as the finding is open
+    mout, mrc, _ = C.run_lines(C.driver_path(DRIVER), ["reset"] + lines, timeout=60)
+    mgot = mout[1:]
+    agree = modelled = 0
+    for i, k in enumerate(kinds):
+        m = mgot[i] if i < len(mgot) else ""
+        if m.endswith(" -") or not m.startswith("selfapp"):
+            continue
+        modelled += 1
+        if i < len(got) and got[i] == m:
+            agree += 1
+    ctx.cov["self_append_probes"] = {"run": len(kinds), "failing": len(failing), "modelled_by_selfLink": modelled,
+                                     "impl_equals_selfLink_model": agree}
+    if failing and modelled and agree != sum(1 for k, *_ in failing if not (mgot[kinds.index(k)].endswith(" -"))):
+        ctx.notes.append("self-append: the real code differs from value semantics AND from the cycle the model of the real code "
+                         "(Deep.selfLink) predicts — the finding changed its shape; re-examine DeepSelf.lean")
     if failing:
         txt = "".join(f"{line}\n# {SELFAPP_WHAT[k]}\n# impl    : {g}\n# expected: {exp}   (container sizes along v, v.back(), v.back().back(), ...)\n"
                       for k, line, g, exp in failing)
